@@ -1,2 +1,92 @@
-// Package c03 will hold the check for property C03.
+// Package c03 decides C03: SMTP transactions are well-sequenced, isolated from each other and
+// atomic.  Part (a) drives real SMTP sessions (QConn -> startSession -> StoreManager -> real
+// store) with command-line sequences from a weighted grammar, one line at a time, and judges the
+// observed (line, reply) trace with an automaton plus a full store snapshot at every transaction
+// end.  Part (b) replays four canonical multi-transaction dialogues with the client side closed
+// after every byte offset of the client stream and compares the store with what the client had
+// seen acknowledged.
 package c03
+
+import (
+	"time"
+
+	"verifharness/internal/fw"
+)
+
+func init() {
+	fw.Register(&fw.Prop{
+		ID:         "C03",
+		Level:      "exploration + exhaustive disconnect enumeration",
+		Exhaustive: false,
+		Rule: "(a) stream 'seq': sessions of 6-45 client lines from a weighted, progress-biased grammar (valid flows, out-of-order commands, " +
+			"mixed-case verbs, unknown verbs, empty lines, 10 KiB and 1 MiB lines, binary garbage, AUTH PLAIN, AUTH LOGIN followed by arbitrary " +
+			"credential lines incl. command look-alikes, STARTTLS with TLS off, odd MAIL/RCPT/DATA syntax, several transactions with different " +
+			"recipient sets per connection, RSET/EHLO/out-of-order probes after every transaction end, data blocks sent in 1-3 byte-arbitrary " +
+			"chunks or cut by a disconnect), both back ends; one line per Step, replies counted at QConn quiescence; oracle = trace automaton over " +
+			"observed replies + complete store snapshot after every transaction end and after the session. A session is non-trivial when >=1 " +
+			"automaton or store judgement was made; distinct by back end and the set of (automaton state, line kind, reply code) triples it produced. " +
+			"(b) stream 'cut': 4 fixed dialogues x 2 back ends x every byte offset k of the client stream (first k bytes transmitted, complete " +
+			"lines before the last one answered and read, the rest sent and the client closed at once) plus the read-reply-then-close variant at " +
+			"every line boundary; exhaustive in both tiers; oracle acked <= stored <= acked + {message whose final .CRLF was completely " +
+			"transmitted}, every stored message equal in full to a dialogue message in a mailbox it was addressed to.",
+		Assumptions: []string{
+			"sessions are served through VerifServeConn (the real startSession) on an in-memory net.Conn; TCP/TLS transport is not part of the property",
+			"naming 'local', default accept/store, recipient limit 200 or 3, message size limit 10 MB or 400 B: which commands are accepted is observed, not predicted",
+			"a line counts as a credential when it follows a 334 reply and is itself answered 334, 235 or 5xx; otherwise it is judged as a command",
+			"an over-long (>= 10 KiB) or binary line may legitimately end the session with at most one reply; every other line must get exactly one",
+			"a HELO (not EHLO) acknowledged inside an open transaction, or an acknowledged RCPT whose address the harness cannot name, makes the envelope of that transaction undetermined: it is not judged until the next transaction boundary",
+			"for k byte-identical duplicate RCPTs any stored count in 1..k is accepted (as in C01)",
+			"(b) for the one message whose final .CRLF was transmitted but not acknowledged, any subset of its recipients may hold it (each copy complete)",
+		},
+		MinObs: func(tier string) map[string]int64 {
+			n := int64(len(cutCases()))
+			return map[string]int64{
+				"cut_sessions":                    n,
+				"cut_sessions_ended":              n,
+				"cut_acknowledged_copies_present": 2000,
+				"cut_inside_data_block":           1000,
+				"cut_inside_a_line":               3000,
+				"transactions_stored":             300,
+				"messages_stored":                 500,
+				"transactions_discarded:rset":     50,
+				"transactions_discarded:ehlo":     20,
+				"consecutive_transactions_with_different_recipient_sets": 50,
+				"mail_before_greeting_refused":                           10,
+				"rset_before_greeting":                                   5,
+				"rcpt_outside_transaction_refused":                       50,
+				"data_without_recipient_refused":                         50,
+				"credential_lines_looking_like_commands":                 20,
+				"closed_inside_data":                                     10,
+				"data_blocks_refused":                                    20,
+				"closed_inside_transaction":                              20,
+				"kind:long-10k":                                          10,
+				"kind:long-1m":                                           3,
+				"kind:binary":                                            30,
+				"kind:NOOP":                                              30,
+				"kind:STARTTLS":                                          10,
+				"kind:AUTH-PLAIN":                                        10,
+				"quit_221":                                               50,
+				"seq_sessions:mem":                                       100,
+				"seq_sessions:file":                                      100,
+			}
+		},
+		// Generous: file-store sessions stall for minutes when other runs saturate the disk.
+		ChildTimeout: func(tier string) time.Duration {
+			if tier == "thorough" {
+				return 90 * time.Minute
+			}
+			return 20 * time.Minute
+		},
+		Run: run,
+	})
+}
+
+func run(c *fw.Ctx) {
+	c.Cases("seq", c.N(12000, 150000), func(i int, r *fw.Rand) {
+		runSeq(c, i, r)
+	})
+	cs := cutCases()
+	c.Cases("cut", len(cs), func(i int, r *fw.Rand) {
+		runCut(c, cs[i])
+	})
+}
